@@ -70,7 +70,7 @@ func (i *recoverHandlerInterceptor) WrapStreamingHandler(next StreamingHandlerFu
 				if r == http.ErrAbortHandler { // nolint:errorlint,goerr113
 					panic(r) // nolint:forbidigo
 				}
-				retErr = i.handle(ctx, Spec{}, nil, r)
+				retErr = i.handle(ctx, conn.Spec(), conn.RequestHeader(), r)
 			}
 		}()
 		err := next(ctx, conn)
